@@ -16,10 +16,20 @@ class VLoop(asyncio.SelectorEventLoop):
     def time(self):
         return self._vt
 
-    def _drain_ready(self, rounds: int = 50):
+    #: optional callable run after every single loop iteration (used to inject application
+    #: activity at arbitrary iteration boundaries, e.g. a worker thread's call_soon_threadsafe)
+    hook = None
+
+    def step(self):
+        """exactly one loop iteration"""
+        self.call_soon(self.stop)
+        self.run_forever()
+        if self.hook is not None:
+            self.hook()
+
+    def _drain_ready(self, rounds: int = 200):
         for _ in range(rounds):
-            self.call_soon(self.stop)
-            self.run_forever()
+            self.step()
             if not self._ready:
                 break
 
